@@ -1477,6 +1477,10 @@ def term_attr(it, v, name):  # noqa: PLR0911, PLR0912
         return Builtin(name, lambda it_, a, k, _v=v: ABSTRACT_METHODS[name](it_, _v, a, k))
     if name in ABSTRACT_FIELDS and it.branch(Py.is_obj(v)):
         return ABSTRACT_FIELDS[name](it, v)
+    import importlib as _il
+
+    if hasattr(_il.import_module("jsonpath.match").NodeList, name) and not z3.is_false(z3.simplify(Py.is_nodelist(v))):
+        raise Unsupported(f"NodeList.{name} is not modelled")
     if any(hasattr(t, name) for t in (str, dict, list, tuple, int, float, bool, type(None))):
         # a real attribute of a builtin type that this library does not model: undecided, never
         # a spurious AttributeError outcome
